@@ -760,9 +760,8 @@ class EventSource(object):
                 continue
 
             if not line or self.closed:  # empty line or closed so attempt dispatch
-                if parts:
-                    edata = u'\n'.join(parts)
-                if edata:  # data so dispatch event by appending to .events
+                if parts:  # data line(s) so dispatch event by appending to .events
+                    edata = u'\n'.join(parts)  # may be empty when data lines are empty
                     if self.dictable:
                         try:
                             ejson = json.loads(edata, object_pairs_hook=odict)
